@@ -141,6 +141,25 @@ macro_rules! wrapper_shape {
         }
     };
 }
+// abstract shift stand-ins for the early-exit harnesses (the early exits must not shift at all; if a modified tree does shift there,
+// the value semantics x * 2^s / floor(x / 2^s) are what matters, not the kernels): window oracle, result length pinned to the operand's
+fn shl_abs<T: num_traits::PrimInt>(n: alloc::borrow::Cow<'_, BigUint>, shift: T) -> BigUint {
+    let s = shift.to_u32().unwrap_or(64);
+    kani::assume(s < 64);
+    let d = vc::digits(&n);
+    let (e, lost) = vc::ref_shl::<W>(d, 0, s);
+    kani::assume(!lost && vc::dig(&e, d.len()) == 0);      // case: the shifted value keeps its digit count
+    if d.is_empty() { BigUint::ZERO } else { vc::mk_from(&e[..d.len()]) }
+}
+fn shr_abs<T: num_traits::PrimInt>(n: alloc::borrow::Cow<'_, BigUint>, shift: T) -> BigUint {
+    let s = shift.to_u32().unwrap_or(64);
+    kani::assume(s < 64);
+    let d = vc::digits(&n);
+    let (e, _) = vc::ref_shr::<W>(d, 0, s);
+    kani::assume(d.is_empty() || vc::dig(&e, d.len() - 1) != 0); // case: the shifted value keeps its digit count
+    if d.is_empty() { BigUint::ZERO } else { vc::mk_from(&e[..d.len()]) }
+}
+
 // early exits: u = 0, u < d, u == d (no core call; nothing shifted)
 macro_rules! early_shape {
     ($name:ident, $which:expr, $lu:expr, $ld:expr, $eq:expr) => {
@@ -150,8 +169,8 @@ macro_rules! early_shape {
         #[kani::stub(u64::leading_zeros, lz_7)]
         #[kani::stub(crate::biguint::verif_common::symbolic, crate::biguint::verif_common::yes)]
         #[kani::stub(alloc::vec::Vec::shrink_to_fit, vc::noop_shrink)]
-        #[kani::stub(crate::biguint::shift::biguint_shl, crate::biguint::shift::verif_c07_biguint_shift::shl_fixedb_0)]
-        #[kani::stub(crate::biguint::shift::biguint_shr, crate::biguint::shift::verif_c07_biguint_shift::shr_fixedb_0)]
+        #[kani::stub(crate::biguint::shift::biguint_shl, shl_abs)]
+        #[kani::stub(crate::biguint::shift::biguint_shr, shr_abs)]
         fn $name() {
             let u0: [u64; $lu] = vc::any_canon::<$lu>();
             let d0: [u64; $ld] = vc::any_canon::<$ld>();
